@@ -76,17 +76,24 @@ def node_stage(pid, tier, seed, known, cov, violations, known_hits):
         violations.append((path, "no-failing-input-found"))
 
 MIXED_PROPS = {"C03", "C19", "C20"}
+FLOW_PROPS = {"C01", "C02", "C11", "C12", "C14"}      # per-edge flow judges on node-driven factories (one run each)
 
 def mixed_stage(pid, tier, seed, cov, violations, known_hits=None):
     """factories with Fleet / conveyor / Buffer edges: run twice here and in two fresh interpreters with different hash seeds"""
     import mixed_family as mf
     tf = time.time()
-    r = mf.run_mixed_family(tier, seed)
-    cov["families"]["mixed"] = dict(factories=r["n"], edge_kinds=r["kinds"], movements=r["movements"], crashes=r["crashes"],
+    flow_only = pid not in MIXED_PROPS
+    r = mf.run_flow_family(tier, seed) if flow_only else mf.run_mixed_family(tier, seed)
+    cov["families"]["mixed-flow" if flow_only else "mixed"] = dict(factories=r["n"], edge_kinds=r["kinds"], movements=r["movements"], crashes=r["crashes"],
                                     fresh_interpreters_with_PYTHONHASHSEED=r["hashseeds"],
                                     judge_violations_all_props=len(r["viol"]), wall_s=round(time.time() - tf, 2))
-    cov["evaluations"] += r["n"] * 4; cov["distinct_nontrivial"] += r["n"]
+    cov["evaluations"] += r["n"] * (1 if flow_only else 4); cov["distinct_nontrivial"] += r["n"]
     mine = [v for v in r["viol"] if v[0] == pid]
+    # KF-D29 seen from outside: an accumulating continuous conveyor hands its items over out of entry order
+    d29o = [v for v in mine if v[1] == "flow-order" and "cbelt accumulating" in v[2]]
+    if d29o and known_hits is not None:
+        known_hits["KF-D29"] = known_hits.get("KF-D29", 0) + len(d29o)
+    mine = [v for v in mine if v not in d29o]
     # known finding KF-D29 inside a factory: an ACCUMULATING continuous conveyor whose items are not slot-aligned lets them
     # overlap until `_get_belt_pattern` raises its "placement logic error" - identified by that very message and the edge
     d29 = [v for v in mine if v[1] == "kernel-exception" and "placement logic error" in v[2]
@@ -94,7 +101,7 @@ def mixed_stage(pid, tier, seed, cov, violations, known_hits=None):
     if d29 and known_hits is not None:
         known_hits["KF-D29"] = known_hits.get("KF-D29", 0) + len(d29)
     mine = [v for v in mine if v not in d29]
-    say(f"[check {pid}] family mixed: {r['n']} factories x (2 runs here + 2 fresh interpreters), edge kinds {r['kinds']}, "
+    say(f"[check {pid}] family mixed: {r['n']} factories x " + ("1 run (per-edge flow judges)" if flow_only else "(2 runs here + 2 fresh interpreters)") + f", edge kinds {r['kinds']}, "
         f"{r['movements']} movements, {len(mine)} judge hits for {pid}")
     if mine:
         mine.sort(key=lambda v: (v[3]["nm"], v[3]["horizon"]))
@@ -209,10 +216,11 @@ def check_property(pid, tier, seed):
                                    histories_cut_where_the_model_gives_up=sum(1 for m in r.model if m and "GAVEUP" in m),
                                    longest_history=max((len(t[1]) for t in r.traces), default=0),
                                    library_line_coverage=r.linecov,
+                                   bounded_exhaustive=r.exhaustive,
                                    wall_s=round(time.time() - tf, 2))
-        cov["evaluations"] += len(r.traces)
+        cov["evaluations"] += len(r.traces) + (r.exhaustive["maximal_sequences"] if r.exhaustive else 0)
         cov["distinct_nontrivial"] += nontriv
-        cov["traces_validated_against_impl"] += len(r.traces) - len(r.div) if r.model_error is None else 0
+        cov["traces_validated_against_impl"] += (len(r.traces) - len(r.div) + (r.exhaustive["maximal_sequences"] - r.exhaustive["divergences"] if r.exhaustive else 0)) if r.model_error is None else 0
         if r.traces:
             h, ops, il = r.traces[min(len(r.traces) - 1, r.corpus_n)]
             cov["samples"].append(dict(family=fam, history=fmt_hist(h, ops, il)[:25]))
@@ -286,7 +294,7 @@ def check_property(pid, tier, seed):
                 violations.append((path, "no-failing-input-found"))
     if pid in NODE_PROPS:
         node_stage(pid, tier, seed, known, cov, violations, known_hits)
-    if pid in MIXED_PROPS:
+    if pid in MIXED_PROPS or pid in FLOW_PROPS:
         mixed_stage(pid, tier, seed, cov, violations, known_hits)
     if pid == "C20":
         config_stage(pid, tier, seed, cov, violations, known_hits)
